@@ -123,7 +123,9 @@ def cascade(ctx, R):
               'the positional stage is not SortVoting::new(positional_threshold, ..)')
     # closures
     visual_label = positional_label = excl_insert = False
-    for cb in all_closures(F, b):
+    label_cb = b
+    from lib import all_callables
+    for cb in all_callables(F, b):
         ebc = ExprBuilder(cb)
         labels = set()
         from_best = False
@@ -144,15 +146,33 @@ def cascade(ctx, R):
                 ctx.check(visual_label, R, cb, 'appearance-winners-labelled-Visual', str(labels),
                           'winners of the appearance stage are labelled %s' % labels)
                 ins = cb.find_calls('std::collections::HashSet::insert')
-                n += 1
                 excl_insert = bool(ins) and ebc.arg(ins[0], 1).has_field('winner_track')
-                ctx.check(excl_insert, R, cb, 'tracks-won-by-appearance-are-excluded', '',
-                          'tracks won by appearance are not recorded as taken')
+                label_cb = cb
             else:
                 n += 1
                 positional_label = labels == {'Positional'}
                 ctx.check(positional_label, R, cb, 'positional-winners-labelled-Positional', str(labels),
                           'winners of the positional stage are labelled %s' % labels)
+    if visual_label and not excl_insert:
+        # collected form: the taken set is built by its own pass over the appearance winners
+        # (`winners.values().map(|w| w[0].winner_track).collect::<HashSet<_>>()`)
+        for c in b.find_calls():
+            if c.name not in ('collect', 'extend', 'from_iter'):
+                continue
+            tys = [b.locals[c.dest['l']]] + [b.locals[a['pl']['l']] for a in c.args[:1] if a.get('pl')]
+            if not any('HashSet' in t for t in tys):
+                continue
+            x = eb.arg(c, len(c.args) - 1)
+            while x is not None and x.kind == 'call':
+                if x.extra is not None and hasattr(x.extra, 'args'):
+                    for mc in closure_args_of_call(F, b, x.extra):
+                        if ExprBuilder(mc).place(0, ()).has_field('winner_track'):
+                            excl_insert = True
+                x = x.args[0] if x.args else None
+    if visual_label:
+        n += 1
+        ctx.check(excl_insert, R, label_cb, 'tracks-won-by-appearance-are-excluded', '',
+                  'tracks won by appearance are not recorded as taken')
     if not visual_label:
         ctx.fail(R, b, 'appearance-winners-labelled-Visual', 'no closure labels appearance winners as Visual')
     if not positional_label:
